@@ -5,6 +5,7 @@ package srv
 import (
 	"encoding/hex"
 	"fmt"
+	"hash/fnv"
 	"net"
 	"os"
 	"path/filepath"
@@ -39,6 +40,28 @@ type invocation struct {
 	ID      string // instance id = second argument
 	Markers string // markers found on the incoming response
 	ReqXid  uint32
+	ReqSum  uint64 // FNV-64a of the request as the handler received it, serialised again
+}
+
+func sum64(b []byte) uint64 {
+	h := fnv.New64a()
+	h.Write(b)
+	return h.Sum64()
+}
+
+// origSum: what a handler must have received for the datagram sent - the datagram as the
+// library parses it, serialised again (0: the datagram does not parse, nothing is compared).
+func origSum(proto int, datagram []byte) uint64 {
+	if proto == 4 {
+		if m, err := dhcpv4.FromBytes(datagram); err == nil {
+			return sum64(m.ToBytes())
+		}
+		return 0
+	}
+	if m, err := dhcpv6.FromBytes(datagram); err == nil {
+		return sum64(m.ToBytes())
+	}
+	return 0
 }
 
 var (
@@ -97,7 +120,7 @@ func synSetup4(args ...string) (handler.Handler4, error) {
 	return func(req, resp *dhcpv4.DHCPv4) (out *dhcpv4.DHCPv4, stop bool) {
 		rx := uint32(req.TransactionID[0])<<24 | uint32(req.TransactionID[1])<<16 | uint32(req.TransactionID[2])<<8 | uint32(req.TransactionID[3])
 		logMu.Lock()
-		invLog = append(invLog, invocation{4, id, markers4(resp), rx})
+		invLog = append(invLog, invocation{4, id, markers4(resp), rx, sum64(req.ToBytes())})
 		logMu.Unlock()
 		// what this handler returns, as it is at the moment it returns
 		defer func() {
@@ -169,7 +192,7 @@ func synSetup6(args ...string) (handler.Handler6, error) {
 			xid = uint32(m.TransactionID[0])<<16 | uint32(m.TransactionID[1])<<8 | uint32(m.TransactionID[2])
 		}
 		logMu.Lock()
-		invLog = append(invLog, invocation{6, id, markers6(resp), xid})
+		invLog = append(invLog, invocation{6, id, markers6(resp), xid, sum64(req.ToBytes())})
 		logMu.Unlock()
 		defer func() {
 			var snap []byte
@@ -494,13 +517,14 @@ func ExecO(c OCase) (res core.Result) {
 			logMu.Unlock()
 			p := gen.Pkt4{Op: 1, HType: 1, HLen: 6, Xid: 0x0c130004, CHAddr: "020000000001", GIAddr: "10.9.9.9"}
 			p.Opts = []gen.Opt4{{Code: 53, Hex: "01"}}
-			sent, pan := feed4(server.NewCapture4(h4, nil), p.Bytes(), &ipv4.ControlMessage{IfIndex: 1}, &net.UDPAddr{IP: net.IPv4(10, 9, 9, 9), Port: 67})
+			reqB4 := p.Bytes()
+			sent, pan := feed4(server.NewCapture4(h4, nil), append([]byte(nil), reqB4...), &ipv4.ControlMessage{IfIndex: 1}, &net.UDPAddr{IP: net.IPv4(10, 9, 9, 9), Port: 67})
 			if pan != nil {
 				res.Viol = core.Violate("C13/panic", "HandleMsg4 panicked: %v", pan)
 				return
 			}
 			wantLog, final, wantSent := expectRun(c.L4, ids4, 4)
-			if v := cmpLog(wantLog, 0x0c130004); v != nil {
+			if v := cmpLog(wantLog, 0x0c130004, origSum(4, reqB4)); v != nil {
 				res.Viol = v
 				return
 			}
@@ -536,13 +560,14 @@ func ExecO(c OCase) (res core.Result) {
 			for r := 0; r < c.Relay6; r++ {
 				m.Relays = append(m.Relays, gen.Relay6Spec{Type: gen.M6RelayForw, Hop: uint8(c.Relay6 - 1 - r), Link: "2001:db8:ffff::1", Peer: "fe80::1", IfaceID: "6966" + fmt.Sprintf("%02x", r)})
 			}
-			sent, pan := feed6(server.NewCapture6(h6, nil), m.Bytes(), &ipv6.ControlMessage{IfIndex: 1}, &net.UDPAddr{IP: net.ParseIP("2001:db8::9"), Port: 546})
+			reqB6 := m.Bytes()
+			sent, pan := feed6(server.NewCapture6(h6, nil), append([]byte(nil), reqB6...), &ipv6.ControlMessage{IfIndex: 1}, &net.UDPAddr{IP: net.ParseIP("2001:db8::9"), Port: 546})
 			if pan != nil {
 				res.Viol = core.Violate("C13/panic", "HandleMsg6 panicked: %v", pan)
 				return
 			}
 			wantLog, final, wantSent := expectRun(c.L6, ids6, 6)
-			if v := cmpLog(wantLog, 0x130006); v != nil {
+			if v := cmpLog(wantLog, 0x130006, origSum(6, reqB6)); v != nil {
 				res.Viol = v
 				return
 			}
@@ -658,7 +683,7 @@ func stopsEarlyOrReplaces(l []OEntry, ids []int) bool {
 	return false
 }
 
-func cmpLog(want []invocation, xid uint32) *core.Violation {
+func cmpLog(want []invocation, xid uint32, reqSum uint64) *core.Violation {
 	logMu.Lock()
 	var got []invocation
 	for _, e := range invLog {
@@ -682,6 +707,9 @@ func cmpLog(want []invocation, xid uint32) *core.Violation {
 		}
 		if got[i].ReqXid != xid {
 			return core.Violate("C13/request-not-original", "plugin %s received a request with transaction id %#x, the original is %#x", got[i].ID, got[i].ReqXid, xid)
+		}
+		if reqSum != 0 && got[i].ReqSum != reqSum {
+			return core.Violate("C13/request-not-original", "plugin %s (invocation #%d) received a request that is not the datagram as parsed (all layers, all options): its serialisation differs from that of the original request", got[i].ID, i)
 		}
 	}
 	return nil
